@@ -620,6 +620,24 @@ def _cov_set(df, t, rng, v, whole_subject, min_rows=1, add=False):
     return df
 
 
+def m_cov_nan(df, t, rng):
+    """NaN covariate on a row that is *kept* by the reader: a row whose features are all NaN and whose only covariate is NaN
+    is 'full of nans' and is dropped by contract (drop_full_nan), which leaves a valid table."""
+    c = t["covs"][int(rng.integers(len(t["covs"])))]
+    kept = df[t["features"]].notna().any(axis=1).to_numpy() | (len(t["covs"]) >= 2)
+    rows = np.flatnonzero(kept)
+    if not len(rows):
+        return None
+    r = int(rows[int(rng.integers(len(rows)))])
+    df = df.astype({c: "float64"})
+    col = df.columns.get_loc(c)
+    if rng.random() < 0.5:  # the whole subject
+        df.iloc[np.flatnonzero((df["ID"] == df["ID"].iloc[r]).to_numpy()), col] = np.nan
+    else:
+        df.iloc[r, col] = np.nan
+    return df
+
+
 VISIT_FAMILY = {
     "dup_visit_exact": m_dup_visit_exact,
     "dup_visit_rounding": m_dup_visit_rounding,
@@ -659,7 +677,7 @@ EVENT_FAMILY = {
 }
 JOINT_ONLY = {"ev_observed_before_last_visit": m_ev_observed_before_last_visit}
 COV_FAMILY = {
-    "cov_nan": lambda df, t, rng: _cov_set(df, t, rng, np.nan, whole_subject=bool(rng.random() < 0.5)),
+    "cov_nan": lambda df, t, rng: m_cov_nan(df, t, rng),
     "cov_fraction": lambda df, t, rng: _cov_set(df, t, rng, 0.5, whole_subject=True, add=True),
     "cov_varying": lambda df, t, rng: _cov_set(df, t, rng, 1.0, whole_subject=False, min_rows=2, add=True),
     "cov_posinf": lambda df, t, rng: _cov_set(df, t, rng, np.inf, whole_subject=True),
